@@ -67,6 +67,11 @@ let () =
       let strict = match clique_number_bk g, independence_number_bk g with
         | Some w, Some a when int_of_nat w = w_ref && int_of_nat a = a_ref -> strict
         | _ -> strict ^ " MODEL-DISAGREES-WITH-ORACLE" in
+      let lg = if m <= 22 then
+          let ((_, _), rows) = line_graph_rows g in
+          String.concat "" (List.map (fun r -> String.concat "" (List.map (fun x -> if x then "1" else "0") r)) rows)
+        else "-" in
+      let strict = strict ^ " lg=" ^ lg in
       let b = Buffer.create 256 in
       Printf.bprintf b "n=%d m=%d w=%d a=%d mc=%d:%s chi=%d kc=%s dg=%s gr=%s pr=%s" n m
         w_ref a_ref
